@@ -14,7 +14,7 @@ from .. import model, query, sig
 
 PROP = "C07"
 LEVEL = "exploration"
-MONITORS = ["spelling", "tokens", "cli_inprocess", "cursor", "groupby"]
+MONITORS = ["groupby_interleaved", "spelling", "tokens", "cli_inprocess", "cursor", "groupby"]
 RULE = (
     "C06 corpora x seeded random filters (depth 0-2); each canonical filter is re-spelt by the rewriting rules "
     "(nested<->dotted keys, +/- 'sp.' prefix, {'sp': {...}}/{'doc': {...}} namespaces, operator as nested "
@@ -306,6 +306,28 @@ def groupby_checks(ctx, project, by_id, flt, canon, rng):
                 continue
             ctx.monitor("groupby")
             problems = []
+            # two groupings of one cursor object consumed in step (nested loops over groupby) must each give what they
+            # give alone
+            try:
+                g1 = cur.groupby(key_arg, default=default)
+                g2 = cur.groupby(lambda job: job.id[::-1])  # always sortable, ordered unlike the first grouping
+                inter = []
+                while True:
+                    try:
+                        lbl, grp = next(g1)
+                    except StopIteration:
+                        break
+                    inter.append((_plain_label(lbl), [j.id for j in grp]))
+                    try:
+                        _l2, grp2 = next(g2)
+                        _ = [j.id for j in grp2]
+                    except StopIteration:
+                        pass
+                ctx.monitor("groupby_interleaved")
+                if inter != got:
+                    problems.append(("interleaved-iteration-differs", inter[:4], got[:4]))
+            except Exception as e:  # noqa
+                problems.append(("interleaved-iteration-raises", repr(e)))
             seen = []
             for lbl, members in got:
                 for m in members:
